@@ -1,4 +1,4 @@
-// C06 / C08 executor: runs "programs" (histories of Create / Add / Collect, either printed by TLC
+// C06 / C08 executor: runs "programs" (histories of Create / AddReader / ShutdownReader / Add / Collect, either printed by TLC
 // from spec/MetricsSync.tla or drawn from a seeded PRNG by tools/lib/metrics_sync.py) on the REAL
 // synchronous metrics pipeline and prints, per execution, the observable event log that
 // spec/MetricsSyncTrace.tla validates.  The harness decides nothing: it concretises abstract
@@ -253,6 +253,15 @@ struct Exec
       collectors.push_back(std::make_shared<FixedCollector>(temp_of(t)));
   }
 
+  // ONE reader is shut down on its own, through the public API (MetricReader::Shutdown); the provider and
+  // the other readers keep running.  In storage mode there is no reader object: the storage is simply
+  // handed the same collector list as before (it has no notion of a reader that is gone).
+  void shutdown_reader(int r)
+  {
+    if (mode == "api")
+      readers.at((size_t)r - 1)->Shutdown();
+  }
+
   void create()
   {
     if (mode != "api")
@@ -467,6 +476,11 @@ struct Exec
       {
         add_reader(op.at("t").get<std::string>());
         std::cout << json({{"e", "AddReader"}, {"t", op.at("t")}}).dump() << "\n";
+      }
+      else if (e == "ShutdownReader")
+      {
+        shutdown_reader(op.at("r").get<int>());
+        std::cout << json({{"e", "ShutdownReader"}, {"r", op.at("r")}}).dump() << "\n";
       }
       else if (e == "Add")
         std::cout << add(op).dump() << "\n";
